@@ -248,6 +248,30 @@ class C06(SessionProperty):
 
 
 class C08(SessionProperty):
+    """Edit histories with refused operations, plus (one case in five) refusal histories of the mapping-style
+    API and of set / rm on documents that are not, or no longer, editable (refusal.py)."""
+
+    def generate(self, seed: int, tier: str) -> dict:
+        if Streams(seed)("kind").random() < 0.2:
+            from . import refusal
+
+            return refusal.generate(seed, tier)
+        return SessionProperty.generate(self, seed, tier)
+
+    def execute(self, case: dict):
+        if case.get("kind") == "refusal":
+            from . import refusal
+
+            return refusal.execute(case)
+        return SessionProperty.execute(self, case)
+
+    def shrink_candidates(self, case: dict):
+        if case.get("kind") == "refusal":
+            from . import refusal
+
+            return refusal.shrink_candidates(case)
+        return SessionProperty.shrink_candidates(self, case)
+
     def oracles(self, case, steps):
         return session.oracle_c08(case["doc"], case["ops"], steps)
 
